@@ -5,9 +5,13 @@ solvers) with a counting equation and recording trackers vs the Lean controller 
 (`PdeVerif.Controller.runSpec`, handler `c07.run`): full event trace `(tracker, t, state)`,
 `t_final`, `steps`, final state, stop reason, finalize calls, recorded frames, pending action times.
 Dyadic parameters: exactly against the Rat model; decimal parameters: bit for bit against the Float
-instantiation of the same definitions.  Monitors (on every real run): steps == N, t_final == t_end,
-t_final == t_start + steps*dt, |t_final - t_end| < dt, final state == iterate of the one-step map,
-identical final state / steps / t_final for every tracker set, initial state object untouched."""
+instantiation of the same definitions.  Equations: u'=1, u'=t and the state-dependent u'=a*u,
+u'=a*u+t, so that a solver whose own state (Adams-Bashforth's previous state, a fixed-point iterate)
+is disturbed by a tracker interrupt ends in a different state.  Monitors (on every real run):
+steps == N, t_final == t_end, t_final == t_start + steps*dt, |t_final - t_end| < dt, final state ==
+iterate of the solver's one-step map (own Python copy of the five schemes), final state of every
+tracked run bit-identical (autonomous) / identical to round-off with the tracker-free run of its
+group, same steps / t_final, initial state object untouched."""
 import copy
 import json
 
@@ -18,13 +22,18 @@ LEVEL = "proof"
 REQUIRED_THEOREMS = [
     "lattice_invariant", "no_overshoot", "progress", "run_terminates", "steps_eq_ceil",
     "whole_range_exact", "whole_range_exact_approx", "general_range", "state_is_iterate",
-    "observation_independent", "initial_state_untouched", "readonly_reaches_final", "whole_range_exact_readonly",
+    "observation_independent", "observed_run_eq_unobserved", "solver_state_survives_interrupts",
+    "initial_state_untouched_partial", "readonly_reaches_final", "whole_range_exact_readonly",
     "round_stable", "steps_stable_under_relative_error",
 ]
 RULE = ("groups of runs sharing (dt, t_start, t_end, equation, solver, backend) and differing in the tracker "
-        "set (the first set is empty; 0-4 trackers with constant / fixed / logarithmic / geometric / adversarial "
-        "oracle schedules, intervals chosen as non-commensurate multiples of dt incl. x.5 ties and D < dt); "
-        "dyadic numbers are compared exactly with the Rat model, decimal numbers bit-exactly with the Float model; "
+        "set (the first set is empty: the tracker-free reference run; 0-4 trackers with constant / fixed / "
+        "logarithmic / geometric / adversarial oracle schedules, intervals chosen as non-commensurate multiples of "
+        "dt incl. x.5 ties and D < dt, two trackers handed the same interrupt object); equations u'=1, u'=t and the "
+        "state-dependent u'=a*u, u'=a*u+t (|a*dt| <= 1/2) with all five fixed-step solvers on numpy, numba source "
+        "and numba JIT; dyadic numbers are compared exactly with the Rat model (states of the state-dependent "
+        "equations to 1e-10 and, for interpreted Euler, bit for bit with the Float model), decimal numbers "
+        "bit-exactly with the Float model; "
         "a run is distinct by its full case record and non-trivial if it takes >= 2 steps and (unless it is the "
         "tracker-free reference run of its group) at least one tracker call happens")
 ASSUMPTIONS = [
@@ -32,8 +41,13 @@ ASSUMPTIONS = [
     "steps_stable_under_relative_error and through the bit-exact Float replay of the same model definitions",
     "GeometricInterrupts answers (libm log/pow) are replayed as an oracle schedule in Float mode and whenever the "
     "exact lattice point differs from the float answer; the theorems hold for every oracle",
-    "the simulated state is one number per cell (counting equations u'=1, u'=t); the theorems are for an arbitrary "
-    "state type and one-step map",
+    "the simulated state is one number per cell (u'=1, u'=t, u'=a*u, u'=a*u+t; all cells alike) plus the stepper's "
+    "own persistent state; the theorems are for an arbitrary state type and one-step map",
+    "the clause `initial state object left unmodified` is judged by the monitor only (the value-semantics model "
+    "cannot express a missing copy: theorem initial_state_untouched_partial)",
+    "post-step hooks and user code reading info[...] inside trackers are neither modelled nor generated",
+    "decimal parameters under JIT (fused multiply-add) have no bit-exact model reference: judged by the monitors, "
+    "agreement with the Float model reported as a histogram",
 ]
 TRUSTED_EXTRA = ["IEEE double arithmetic of Lean's Float equals CPython/numpy/numba float64 for + - * / floor"]
 
@@ -146,59 +160,85 @@ def malformed(ctx):
 
 
 # ------------------------------------------------------------------------------------------
+def judge_group(group, reals, found=None):
+    """the C07 monitors on one group of executed runs: list of monitor-failure dicts"""
+    out = []
+    oks = [(c, r) for c, r in zip(group, reals) if not (isinstance(r, str) or r.get("error"))]
+    for c, r in oks:
+        for what, obs, exp in ctrl.monitor_accounting(c, r):
+            out.append({"leg": "accounting", "case": c, "observed": obs, "expected": exp, "what": what,
+                        "key": {"what": what}})
+    if len(oks) >= 2:
+        for what, obs, exp in ctrl.monitor_independence(oks):
+            out.append({"leg": "independence", "case": {"group": [c for c, _ in oks]}, "observed": obs,
+                        "expected": exp, "what": what, "key": {"what": what}})
+    return out
+
+
 def search(ctx, broken):
-    """failing-input search after a broken tie: the monitors on the disagreeing cases and on a
-    larger fresh sample (numpy backend in-process)"""
-    found = []
-
-    def probe(group):
-        reals = [ctrl.execute(c) for c in group]
-        oks = [(c, r) for c, r in zip(group, reals) if not r.get("error")]
-        for c, r in oks:
-            for what, obs, exp in ctrl.monitor_accounting(c, r):
-                found.append({"leg": "accounting", "case": c, "observed": obs, "expected": exp, "what": what,
-                              "key": {"what": what}})
-                return True
-        if len(oks) >= 2:
-            for what, obs, exp in ctrl.monitor_independence(oks):
-                found.append({"leg": "independence", "case": {"group": [c for c, _ in oks]}, "observed": obs,
-                              "expected": exp, "what": what, "key": {"what": what}})
-                return True
-        return False
-
+    """failing-input search after a broken tie: the monitors on the disagreeing cases (each next to its
+    tracker-free twin, in the execution mode it was generated for) and on a larger fresh sample - numpy
+    in-process, and the numba modes in which a disagreement occurred"""
+    groups, modes = [], set()
     for d in broken:
         c = d.get("case") if isinstance(d, dict) else None
-        if not c or "dt" not in c or c.get("backend") != "numpy":
+        if not c or "dt" not in c:
             continue
         c = copy.deepcopy(c)
         for tr in c["trackers"]:
             tr["stops"] = []
-        if probe([dict(c, trackers=[]), c]):
-            return found
+        modes.add(ctrl.exec_mode(c))
+        if len(groups) < 24:
+            groups.append([dict(copy.deepcopy(c), trackers=[]), c])
+    flat = [c for g in groups for c in g]
+    it = iter(ctrl.execute_as_recorded(flat, procs=8))
+    for g in groups:
+        found = judge_group(g, [next(it) for _ in g])
+        if found:
+            return found[:1]
     rng = ctx.sub_rng("search")
     nohist = lambda *a, **k: None
     for _ in range(4000):
-        if probe(gen_group(rng, nohist, "numpy", 150)):
-            return found
-    return found
+        g = gen_group(rng, nohist, "numpy", 150)
+        found = judge_group(g, [ctrl.execute(c) for c in g])
+        if found:
+            return found[:1]
+    for mode in sorted(modes - {"numpy"}):
+        gs = [gen_group(rng, nohist, mode, 60, force=ctrl.FIXED_SOLVERS[i % 5] if i % 2 else None)
+              for i in range(120 if mode == "numba-S" else 30)]
+        it = iter(ctrl.execute_as_recorded([c for g in gs for c in g], procs=8))
+        for g in gs:
+            found = judge_group(g, [next(it) for _ in g])
+            if found:
+                return found[:1]
+    return []
 
 
 def replay(ctx, rep):
-    c = rep["case"]
+    """re-run the recorded case (a single run, or the group of an independence failure) on the real code in
+    the recorded execution mode and judge the recorded symptom"""
+    c = rep.get("case")
+    if not isinstance(c, dict) or not ("group" in c or "dt" in c):
+        print("this file records no case of C07 (nothing to re-run): cannot be replayed")
+        return False
     group = c["group"] if "group" in c else [c]
-    reals = [ctrl.execute(x) for x in group]
-    bad = []
+    print("execution mode(s):", sorted({ctrl.exec_mode(x) for x in group}))
+    reals = ctrl.execute_as_recorded(group)
     for x, r in zip(group, reals):
         if r.get("error"):
-            bad.append(("run raised", r["error"], None))
-            continue
-        print("steps", r["steps"], "t_final", r["t_final"], "state", r["state"], "stop_reason", r["stop_reason"])
-        bad += ctrl.monitor_accounting(x, r)
-    oks = [(x, r) for x, r in zip(group, reals) if not r.get("error")]
-    if len(oks) >= 2:
-        bad += ctrl.monitor_independence(oks)
+            print("run raised:", r["error"])
+        else:
+            print("steps", r["steps"], "t_final", r["t_final"], "state", repr(r["state"]), "stop_reason", r["stop_reason"],
+                  "trackers", len(x["trackers"]))
+    if any(r.get("error") for r in reals):
+        return False
+    bad = judge_group(group, reals)
     for b in bad:
-        print("monitor:", b)
+        print("monitor:", b["what"], "| observed", b["observed"], "| expected", b["expected"])
+    what = rep.get("what")
+    same = [b for b in bad if what is None or b["what"] == what]
     if not bad:
         print("monitor: holds")
-    return not bad
+    elif not same:
+        print(f"the recorded symptom `{what}` is gone; the failures above are different ones")
+    return not same
